@@ -28,6 +28,7 @@ PROPS = {
     ),
     'C03': dict(
         families=['codec', 'golden'], reports=['codec_enc', 'golden'], consts=True,
+        reference_reports={'codec_enc': 'the model `encode` is proved equal to the fixed layout relation (c03_layout, c03_layout_unique): bytes that differ from it do not conform to the layout'},
         proof_files=CODEC,
         theorems='c03_layout, c03_layout_unique, c03_stream_layout, c03_kinds_frozen (+ per-run consts_frozen)',
         assumptions=['golden vectors and README digests are checked against the implementation by the harness'],
@@ -90,6 +91,7 @@ PROPS = {
     ),
     'C08': dict(
         families=['typed'], reports=['marshal'], consts=True,
+        reference_reports={'marshal': 'the model `marshal` (Model/Marshal.v) is the independent reference marshaller the property names; c08_* prove it satisfies every clause of the reference mapping'},
         proof_files=TYPED_M,
         theorems='c08_scalar_*, c08_nan*, c08_nil_*, c08_bytes, c08_byte_array, c08_struct, c08_tuple, c08_registered_prefix, c08_map_sorted, c08_map_order_independent, c08_indirection_*, c08_bad_key_rejected, c08_tokens_wf, c08_total (+ c08_tied_keys_edge: the domain edge)',
         assumptions=['cross-run determinism has no counterpart inside a Gallina function; for the Go code it is carried by the correspondence (every map rebuilt through another insertion/deletion history; Go randomises map iteration per map)',
@@ -137,6 +139,7 @@ PROPS = {
     ),
     'C05': dict(
         families=['typed'], reports=['unmarshal'], consts=True,
+        reference_reports={'unmarshal': 'the model `unm` (Model/Unmarshal.v) is the reference interpretation the property names (c05_* state its totality, exact consumption, mismatch reporting)'},
         proof_files=TYPED_U,
         theorems='c05_total, c05_total_exists, c05_fuel_monotone, c05_consumes_prefix, c05_nil_leaves_untouched, c05_end_token_rejected, c05_empty_is_eof, c05_scalar_exact_kind, c05_mismatch_reported, c05_unknown_field_skipped, c05_skip_any_value',
         assumptions=['the model `unm` is the reference interpretation: acceptance, resulting value and error class of the implementation are compared with it on every generated (stream, target) pair; that the IMPLEMENTATION never panics is an observable of that comparison, not a theorem',
@@ -144,10 +147,10 @@ PROPS = {
     ),
     'C16': dict(
         families=['typed'], reports=['marshal', 'unmarshal'],
-        proof_files=TYPED_U,
-        theorems='c16_by_name, c16_by_name_fuel, c16_strict_unknown_rejected, c16_strict_deprecated_skipped, c16_unknown_skipped, c16_skip_is_structural (+ c16_merge_edge)',
+        proof_files=TYPED_U + ['Proofs/SkipEmptyP.v'],
+        theorems='c16_by_name, c16_by_name_fuel, c16_strict_unknown_rejected, c16_strict_deprecated_skipped, c16_unknown_skipped, c16_skip_is_structural, c16_skip_empty_fields_exact, c16_kept_fields_spec, c16_noskip_all_fields, c16_skip_empty_roundtrip(_fuel), c16_normal_se_equiv (+ c16_merge_edge, c16_skip_empty_merge_edge: the zero-target edge)',
         assumptions=['by-name theorem: common fields from the round-trip universe (simple_ty) with identical types and zero initial content; other field types are decided by the correspondence',
-                     'skip-empty (exactly the zero-valued fields and empty slices are omitted; the stream round-trips) is decided by the correspondence (marshal model with skip_empty) and Go oracles; is_zero mirrors reflect.Value.IsZero'],
+                     'skip-empty: "exactly the empty fields are omitted" is an equation for every struct type; the round trip of the shortened stream is proved on the round-trip universe (simple_ty), maps / interfaces / funcs as field types by the correspondence (marshal model with skip_empty) and Go oracles; is_zero mirrors reflect.Value.IsZero (validated by the correspondence)'],
     ),
     'C11': dict(
         families=['typed'], reports=['unmarshal'], consts=True,
